@@ -1,0 +1,14 @@
+//go:build verif
+
+// Package verifhook lets the verification harness observe the individual
+// durable writes of a commit. It is a no-op unless built with -tags verif.
+package verifhook
+
+// OnDurable, when set, is called right after each durable write.
+var OnDurable func(label string)
+
+func Durable(label string) {
+	if OnDurable != nil {
+		OnDurable(label)
+	}
+}
